@@ -6,6 +6,8 @@ import (
 	"os"
 	"strings"
 
+	"golang.org/x/tools/go/ssa"
+
 	"verif/internal/engine/u"
 	"verif/internal/lit"
 	"verif/internal/load"
@@ -62,6 +64,12 @@ func ruleUnrolledChains(r *rep.Report, p *load.Program) {
 			}
 			continue
 		}
+		// a pure delegate (`func AddAfterBasic(out, a, b) { Add(out, a, b) }`) is analysed through its target
+		for hop := 0; hop < 3; hop++ {
+			if tgt := delegateOf(fn); tgt != nil {
+				fn = tgt
+			}
+		}
 		paths, err := pt.Enumerate(fn, geModel())
 		if err != nil || len(paths) == 0 {
 			r.Fail("U-uniform-stages", cfg, cs.name+": paths enumerate", ssau.Pos(p, fn.Pos()), "chain:paths:"+cs.name, fmt.Sprint(err))
@@ -81,6 +89,12 @@ func ruleUnrolledChains(r *rep.Report, p *load.Program) {
 				continue
 			}
 			stages, _, ok := u.Stages(fin)
+			if !ok && cs.allSame && len(fin.Args) == 0 && strings.HasPrefix(fin.Op, "P") {
+				// a plain array assignment (`*out = *in`) copies every limb alike
+				n++
+				r.OK("U-uniform-stages", cfg, fmt.Sprintf("%s(%s): whole-array assignment", cs.name, cs.out), "out-parameter := "+fin.Op)
+				continue
+			}
 			if !ok {
 				r.Fail("U-uniform-stages", cfg, cs.name+": out-parameter is written element by element at constant indices", ssau.Pos(p, fn.Pos()), "chain:shape:"+cs.name+cs.out, "final content is "+trunc(fin.String(), 200)+" (unrecognised shape)")
 				continue
@@ -282,4 +296,34 @@ func limbWidth(p *load.Program, pkg string, i int) int {
 		return 51
 	}
 	return 26 - i%2
+}
+
+// delegateOf returns the module function fn merely forwards its parameters to (nil if fn does anything else).
+func delegateOf(fn *ssa.Function) *ssa.Function {
+	if len(fn.Blocks) != 1 {
+		return nil
+	}
+	var tgt *ssa.Function
+	for _, in := range fn.Blocks[0].Instrs {
+		switch x := in.(type) {
+		case *ssa.DebugRef, *ssa.Return:
+		case *ssa.Call:
+			if tgt != nil {
+				return nil
+			}
+			c := x.Common().StaticCallee()
+			if c == nil || !ssau.InModule(c) || len(x.Common().Args) != len(fn.Params) {
+				return nil
+			}
+			for i, a := range x.Common().Args {
+				if a != fn.Params[i] {
+					return nil
+				}
+			}
+			tgt = c
+		default:
+			return nil
+		}
+	}
+	return tgt
 }
